@@ -36,7 +36,31 @@ def gen(ctx):
     # and inside labels entered later (user-written or those inside first/limit/isempty)
     for _ in range(150 if tier == "quick" else 3000):
         cases.append(dict(filter=label_rec(rng), inputs=[from_json(rng.choice([0, 1, [[[[1]]]], None]))], kind="label-rec"))
+    # definitions that hand themselves (or a local helper that calls them back) on as a filter argument and also call
+    # themselves in tail position: the closure must run the definition, with its calls caught where they belong
+    for _ in range(120 if tier == "quick" else 2500):
+        cases.append(dict(filter=closure_rec(rng), inputs=[from_json(rng.choice([[2, [1, 0]], [[3]], 2, [0, [1, [2]]], [], [[], 1], {"a": [1, 2]}]))], kind="closure-rec"))
     return cases
+
+
+def closure_rec(rng):
+    pick = rng.choice
+    base = pick(['"z"', ".", "[.]", "(., -1)", "empty"])
+    step = pick([". - 1", ". - 1", ". - 2"])
+    num = '(type == "number") and . > 0'
+    hof = pick(["map(@F)", "[.[] | @F]", "map_values(@F)", "[limit(5; .[] | @F)]", "(to_entries | map(.value | @F))", "[.[] | first(@F)]",
+                "(def ap(h): [.[] | h]; ap(@F))", "(def ap(h): map(h); ap(@F))", "[.[] | @F | tostring]", "map(@F) | length", "[.[]? as $v | $v | @F]",
+                "(def twice(h): [.[] | h | h]; twice(@F))", "any(.[]; @F == \"z\")", "[(.[0], .[-1]) | @F]"])
+    cont = 'type == "array" or type == "object"'
+    shape = pick([
+        "def f: if %s then %s elif %s then (%s | f) else %s end; f" % (cont, hof.replace("@F", "f"), num, step, base),
+        "def f: def g: if %s then (%s | f) else %s end; if %s then %s else g end; f" % (num, step, base, cont, hof.replace("@F", "g")),
+        "def f: def g: if %s then (%s | g) else %s end; if %s then %s else g end; f" % (num, step, base, cont, hof.replace("@F", "f")),
+        "def f(h): if %s then [.[] | h] elif %s then (%s | f(h)) else %s end; def k: f(k); k" % (cont, num, step, base),
+        "def f: if %s then %s elif %s then (%s | f), 9 else %s end; f" % (cont, hof.replace("@F", "f"), num, step, base),
+        "def f: if %s then (%s | f) elif %s then %s else %s end; f" % (num, step, cont, hof.replace("@F", "f"), base),
+    ])
+    return pick(["[%s]", "%s", "[limit(12; %s)]", "try [%s] catch \"c\""]) % shape
 
 
 def label_rec(rng):
@@ -137,6 +161,25 @@ def custom(ctx):
             else:
                 stats["table_diff"] += 1
                 disagreements.append(dict(case=dict(filter=p, kind="table"), impl=a, model=b))
+    # a table that differs is a broken correspondence, not yet a failing input: look for one by running the program on both sides
+    tab = [d for d in disagreements if d["case"].get("kind") == "table"]
+    if tab:
+        inputs = [from_json(json.loads(s)) for s in INPUTS_SRC]
+        bc = []
+        for j, dd in enumerate(tab[:40]):
+            for k, inp in enumerate(inputs[:6]):
+                bc.append(dict(id="t%d_%d" % (j, k), filter=dd["case"]["filter"], inputs=[inp], kind="table-behaviour", j=j))
+        res = jq.run_both(bc, limit=LIMIT, fuel=FUEL)
+        differs = set()
+        for c in bc:
+            r = res[c["id"]]
+            if jq.classify(r) == "disagree" and c["j"] not in differs:
+                differs.add(c["j"])
+                disagreements.append(dict(case=c, impl=r["impl"], model=r["model"]))
+        for j, dd in enumerate(tab):
+            if j not in differs:
+                dd["noinput"] = True
+        stats["table_diff_with_failing_input"] = len(differs)
     return dict(stats=stats, evaluations=len(progs), distinct=distinct, disagreements=disagreements,
                 samples=[dict(filter=progs[0], table_equal=True)] if progs else [],
                 coverage=dict(programs=len(progs)))
